@@ -230,6 +230,9 @@ func (a *adversary) craftFor(r *run, n *cnode) (*interfaces.ConsensusRawMessage,
 		return a.mkC(ref(protocol.LEAN_HELIX_COMMIT, h, v, b), victim, "", ""), "c_claimed_honest"
 	case 8: // COMMIT with a bad share
 		b := a.knownBlock(r, h)
+		if r.rnd.Intn(2) == 0 {
+			return a.mkC(ref(protocol.LEAN_HELIX_COMMIT, h, v, b), me, "", "stolen"), "c_share_of_another_member"
+		}
 		return a.mkC(ref(protocol.LEAN_HELIX_COMMIT, h, v, b), me, "", "forged"), "c_bad_share"
 	case 9, 10: // VIEW_CHANGE to the node (as if it led view v): with/without proof, good and bad proofs
 		tv := v
@@ -570,13 +573,18 @@ func (a *adversary) mutateFor(r *run, n *cnode) (*interfaces.ConsensusRawMessage
 
 // garbageFor: bytes that are not a well-formed message (C12).
 func (a *adversary) garbageFor(r *run, n *cnode) (*interfaces.ConsensusRawMessage, string) {
-	switch r.rnd.Intn(4) {
+	switch r.rnd.Intn(5) {
 	case 0:
 		b := make([]byte, r.rnd.Intn(64))
 		r.rnd.Read(b)
 		return &interfaces.ConsensusRawMessage{Content: b}, "garbage_random"
 	case 1:
 		return &interfaces.ConsensusRawMessage{Content: []byte{}}, "garbage_empty"
+	case 2: // no content at all (a nil slice is not the same thing as an empty one to a membuffers reader), with or without a block
+		if r.rnd.Intn(2) == 0 {
+			return &interfaces.ConsensusRawMessage{Content: nil, Block: a.newBody(r, uint64(n.st.Height()), false)}, "garbage_nil_content_with_block"
+		}
+		return &interfaces.ConsensusRawMessage{Content: nil}, "garbage_nil_content"
 	default:
 		if len(a.rawSeen) == 0 {
 			return nil, ""
